@@ -112,9 +112,11 @@ def run_refilter(case, failures):
         fh.write("\n".join(f["lines"]) + "\n")
     try:
         lists = case["lists"]
+        # the Leeds format writes ice species with the prefix G: the network's species symbols say so (as the Leeds example's configuration)
+        kw = {"species_kwargs": {"grain_symbol": "GRAIN", "surface_prefix": "G", "bulk_prefix": "@"}} if f["fmt"] == "leeds" else {}
         try:
-            want_net = Network(filelist=path, fileformats=f["fmt"], allowed_species=list(lists[-1]) or None)
-            net = Network(filelist=path, fileformats=f["fmt"], allowed_species=list(lists[0]))
+            want_net = Network(filelist=path, fileformats=f["fmt"], allowed_species=list(lists[-1]) or None, **kw)
+            net = Network(filelist=path, fileformats=f["fmt"], allowed_species=list(lists[0]), **kw)
         except Exception:
             return None  # the file/list is refused by the constructor itself: outside this clause
         N_first = len(net.reaction_list)
@@ -122,6 +124,10 @@ def run_refilter(case, failures):
             for l in lists[1:]:
                 net.allowed_species = list(l)
         except Exception as e:
+            try:
+                Network(filelist=path, fileformats=f["fmt"], allowed_species=list(l) or None, **kw)
+            except Exception:
+                return None  # the constructor refuses this list as well: a consistent refusal, outside this clause
             failures.append((f"refilter/{f['fmt']}/raises/{type(e).__name__}", f"allowed_species = {l} after reading the file with {lists[0]}: {type(e).__name__}: {e}"))
             return N_first
         got, want = sorted(view(net)), sorted(view(want_net))
